@@ -452,7 +452,7 @@ def run_compiler_check(ctx, res, prop):
         thm, cls = (("C03_fragment_partial", "inCleanFragment") if prop == "C03" else ("C06_fragment_partial", "inXorFragment"))
         res.notes.append(f"{stats['in_fragment']} compiled instances lie in the decidable class of the Lean theorem {thm} "
                          f"({cls}: one definition, tree-like expression over the arguments with Or of any arity, the return "
-                         "name requested) with the model reproducing the real gate list; the theorem is proved for the model of "
+                         "name requested - or, for C03, none) with the model reproducing the real gate list; the theorem is proved for the model of "
                          f"the repaired compiler; {stats['in_fragment_bad']} of these instances fail")
     res.notes.append("decided per compiled instance (exhaustive over its inputs) by validators whose soundness is proved; "
                      "the compiler model reproduces the real gate list exactly, ancilla choices logged from the real run, "
